@@ -246,7 +246,16 @@ def rule_dispatch_identity(ctx):
     C18.rule_R2(R.Retag(ctx, "C18."))
 
 
+def rule_dispatch_accounting(ctx):
+    """every frame handed to dispatch is queued for a worker or counted as dropped - nothing is discarded on the way (shared with C18.R3):
+    a frame dispatch throws away is analysed by the sequential mode and missing from the parallel result"""
+    from ..engine import report as R
+    from . import C18
+    C18.rule_R3(R.Retag(ctx, "C18."))
+
+
 def run(ctx):
+    rule_dispatch_accounting(ctx)
     rule_dispatch_identity(ctx)
     rule_uptime_keys(ctx)
     rule_R1(ctx)
